@@ -26,5 +26,9 @@ print("|---|---|---|---|---|---|")
 for f in sorted(glob.glob(os.path.join(V, "seeded", "*", "meta.json"))):
     m = json.load(open(f))
     before = m.get("ran_before_strengthening")
+    if m.get("neutralised_by"):
+        print("| `{}` | {} | {} | {} | {} | not applicable any more: neutralised by {} (its demo passes with the change applied) |".format(
+            m["id"], m["breaks"], m.get("what_changed", ""), m.get("needs", ""), "(led to D9)", m["neutralised_by"]))
+        continue
     print("| `{}` | {} | {} | {} | {} | {} |".format(m["id"], m["breaks"], m.get("what_changed", ""), m.get("needs", ""),
           fmt(before) if before else "(same)", fmt(m["ran"])))
